@@ -1194,6 +1194,58 @@ def corr_head(ck: Ck) -> None:
         ck.tie_broken.append('correspondence entity header (Fmt/FgdHead.v vs EntityDef.export/parse)')
         which, j = ('writer', wbad[0]) if wbad else ('reader', rbad[0])
         ck.extra['text_header_disagreement'] = {'side': which, 'code': (wc if wbad else rc)[j], 'case': (w_cases if wbad else r_cases)[j][:1500]}
+    corr_helper_args_program(ck)
+
+
+def corr_helper_args_program(ck: Ck) -> None:
+    """The GENERATED configuration of the PAREN_ARGS branch against the implementation, exhaustively on a small scope: every text over
+    {',', ' ', 'a', 'b'} of length 0-5 (1365 texts) as the PAREN_ARGS token of an unknown helper, through the real EntityDef.parse;
+    the arguments UnknownHelper received == paren_args_with gen_args_cfg (so this correspondence follows the code that is there:
+    under a fault it still agrees and the named obligations on gen_args_cfg say what is wrong)."""
+    import itertools
+    import warnings
+    import srctools.fgd as F
+    from srctools.fgd import EntityDef, EntityTypes
+    from srctools.tokenizer import IterTokenizer, Token as T
+    cs = lambda x: '[' + ';'.join(str(ord(c)) for c in x) + ']'   # noqa: E731
+    cases = []
+    for n in range(0, 6):
+        for tup in itertools.product(', ab', repeat=n):
+            text = ''.join(tup)
+            stream = [(T.STRING, 'zz_helper'), (T.PAREN_ARGS, text), (T.NEWLINE, '\n'), (T.EQUALS, '='), (T.STRING, 'e'), (T.NEWLINE, '\n'),
+                      (T.BRACK_OPEN, '['), (T.NEWLINE, '\n'), (T.BRACK_CLOSE, ']')]
+            fgd = F.FGD()
+            try:
+                with warnings.catch_warnings():
+                    warnings.simplefilter('ignore')
+                    EntityDef.parse(fgd, IterTokenizer(iter(stream), 'c16', F.FGDParseError), EntityTypes.POINT, eval_bases=False)
+                [ent] = fgd.entities.values()
+                [h] = ent.helpers
+                got = 'Some ' + coq_list(cs(a) for a in h.export())
+            except Exception:   # noqa: BLE001
+                got = 'None'
+            cases.append('(%s, %s)' % (cs(text), got))
+            ck.count('corr_helper_args_program')
+            blank_piece = ',' in text and any(p.strip() == '' for p in text.split(','))
+            ck.hist('helper_args_program_text', 'blank piece' if blank_piece else 'plain')
+            if blank_piece:
+                ck.seen(('haprog', text))
+    pre = HEAD_PRE.split('Definition hobj')[0] + '''Definition ha (c : list N * option (list (list N))) : N :=
+  match snd c with Some l => if leqb str_eqb (paren_args_with gen_args_cfg (fst c)) l then 0 else 1 | None => 2 end.
+'''
+    vals = ck.coq_eval(IMPORTS, ['map ha ' + coq_list(cases)], name='helper_args_program', preamble=pre, timeout=900)
+    if vals is None:
+        ck.obligation('correspondence:text_helper_args_program', False, 'model could not be evaluated')
+        ck.tie_broken.append('correspondence helper argument program: model evaluation failed')
+        return
+    codes = parse_coq_N_list(vals[0])
+    bad = [i for i, c in enumerate(codes) if c != 0]
+    ck.obligation('correspondence:text_helper_args_program', not bad and len(codes) == len(cases),
+                  f'EntityDef.parse PAREN_ARGS branch: {len(codes)} texts (all texts over comma, blank, a, b of length 0-5), {len(bad)} disagreements '
+                  f'(arguments UnknownHelper received == paren_args_with gen_args_cfg, the configuration read off the source)')
+    if bad:
+        ck.tie_broken.append('correspondence helper argument program (gen_args_cfg vs EntityDef.parse)')
+        ck.extra['helper_args_program_disagreement'] = cases[bad[0]]
 
 
 # ----------------------------------------------------------------------------------------------- binary records
